@@ -13,11 +13,11 @@ sb = H.stateless_block
 
 SERVER_STATES = ["fresh", "preface-half", "handshaken", "open", "hc-remote",
                  "hc-local", "reset-by-us", "reset-by-peer", "forgotten",
-                 "mid-block", "reserved-local", "two-streams",
+                 "mid-block", "reserved-local", "two-streams", "skipped-id",
                  "closed-goaway-rcvd", "closed-by-error"]
 CLIENT_STATES = ["fresh", "handshaken", "open", "hc-local", "resp-headers",
                  "reserved-remote", "reset-by-us", "reset-by-peer",
-                 "forgotten", "mid-block", "two-streams",
+                 "forgotten", "mid-block", "two-streams", "skipped-id",
                  "closed-goaway-rcvd", "closed-by-error"]
 
 
@@ -69,6 +69,9 @@ def build_state(client, name, cfg=None):
             h.rx([hdr(1)])
             h.rx([hdr(3, es=True)])
             h.api("send_headers", 3, H.ni(H.RESP))
+        elif name == "skipped-id":
+            h.rx([hdr(3)])               # the peer's first stream is 3: stream 1 was never used and never will be
+
         elif name == "own-trailers-sent":
             # (not in SERVER_STATES: used by C15 only) request open, the server has answered with headers and trailers
             h.rx([hdr(1)])
@@ -117,6 +120,9 @@ def build_state(client, name, cfg=None):
             req(1)
             req(3, es=True)
             h.rx([resp(3)])
+        elif name == "skipped-id":
+            req(3)                       # our first stream is 3: stream 1 was never used and never will be
+
         elif name == "own-trailers-sent":
             # (not in CLIENT_STATES: used by C15 only) request, body and request trailers sent; no response yet
             req(1)
